@@ -585,8 +585,8 @@ fn scenarios(tier: Tier) -> Vec<Scn> {
 /// holds one pending connection.
 pub struct BlackHole {
     pub addr: SocketAddr,
-    _fd: std::os::fd::OwnedFd,
-    _filler: Vec<std::net::TcpStream>,
+    pub _fd: std::os::fd::OwnedFd,
+    pub _filler: Vec<std::net::TcpStream>,
 }
 
 pub fn black_hole(v6: bool) -> Option<BlackHole> {
@@ -763,6 +763,109 @@ fn free_running_cells() -> Vec<(String, Option<(String, String)>)> {
             )),
         };
         out.push((name, viol));
+    }
+    // addresses that refuse at once, then one that never answers, then one that accepts: only the
+    // unresponsive one costs a race interval
+    for refusing in [2usize, 4] {
+        let name = format!("mixed:{refusing}-refusing-then-unresponsive-then-accepting");
+        let mut refs = Vec::new();
+        let mut ok = true;
+        for _ in 0..refusing {
+            match bound_not_listening(false, 0) {
+                Some(x) => refs.push(x),
+                None => ok = false,
+            }
+        }
+        let hole = black_hole(false);
+        let peer = start_peer(0, Addr { v6: false, accepts: true }, 0);
+        let (Some(peer), Some(hole), true) = (peer, hole, ok) else {
+            out.push((name, None));
+            continue;
+        };
+        let mut list: Vec<SocketAddr> = refs.iter().map(|r| r.1).collect();
+        list.push(hole.addr);
+        list.push(peer.addr);
+        attohttpc::verif::set_resolution("mixed.test", Some(list));
+        let t0 = Instant::now();
+        let res = guarded(|| attohttpc::get("http://mixed.test:7777/").connect_timeout(Duration::from_secs(3)).read_timeout(Duration::from_secs(5)).send().and_then(|r| r.text()));
+        let el = t0.elapsed();
+        attohttpc::verif::set_resolution("mixed.test", None);
+        peer.stop.store(true, Ordering::SeqCst);
+        let viol = match &res {
+            Ok(Ok(b)) if b == "L0" && el < Duration::from_millis(200 + 450) => None,
+            other => Some((
+                "unresponsive-address-delays-too-long".to_string(),
+                format!("{refusing} addresses that refuse at once, one that never answers, one that accepts: {} after {el:?}, expected about one race interval (bound 650 ms)", format!("{other:?}").chars().take(120).collect::<String>()),
+            )),
+        };
+        out.push((name, viol));
+    }
+    // an address that accepts late - after the attempts before it have timed out, before its own
+    // attempt does: three unresponsive addresses, then a listener whose full accept queue is drained
+    // 0.9 s into the race, so that the retransmitted SYN of the fourth attempt (started at 0.6 s,
+    // retransmitted at about 1.6 s, timing out at 1.8 s) is accepted
+    {
+        let name = "late-accept:three-unresponsive-then-one-accepting-late".to_string();
+        let holes: Vec<_> = (0..4).filter_map(|_| black_hole(false)).collect();
+        if holes.len() < 4 {
+            out.push((name, None));
+        } else {
+            use std::os::fd::{AsRawFd, FromRawFd};
+            let slow_fd = holes[3]._fd.as_raw_fd();
+            let accepted_at: Arc<Mutex<Option<Duration>>> = Arc::new(Mutex::new(None));
+            let (acc2, stop) = (accepted_at.clone(), Arc::new(AtomicBool::new(false)));
+            let stop2 = stop.clone();
+            let t0 = Instant::now();
+            let l: TcpListener = unsafe { TcpListener::from_raw_fd(libc::dup(slow_fd)) };
+            let fillers: Vec<SocketAddr> = holes[3]._filler.iter().filter_map(|f| f.local_addr().ok()).collect();
+            let drainer = std::thread::spawn(move || {
+                std::thread::sleep(Duration::from_millis(900));
+                l.set_nonblocking(true).unwrap();
+                while !stop2.load(Ordering::SeqCst) {
+                    match l.accept() {
+                        Ok((mut s, peer)) => {
+                            if fillers.contains(&peer) {
+                                continue; // one of the connections that kept the queue full
+                            }
+                            // the client's attempt has connected
+                            acc2.lock().unwrap().get_or_insert(t0.elapsed());
+                            let _ = s.set_nonblocking(false);
+                            let _ = s.set_read_timeout(Some(Duration::from_millis(150)));
+                            let mut buf = [0u8; 1024];
+                            if matches!(s.read(&mut buf), Ok(k) if k > 0) {
+                                let _ = s.write_all(b"HTTP/1.1 200 OK\r\nContent-Length: 2\r\n\r\nL0");
+                            }
+                        }
+                        Err(_) => std::thread::sleep(Duration::from_millis(2)),
+                    }
+                }
+            });
+            let list: Vec<SocketAddr> = holes.iter().map(|h| h.addr).collect();
+            attohttpc::verif::set_resolution("late.test", Some(list));
+            let res = guarded(|| attohttpc::get("http://late.test:7777/").connect_timeout(Duration::from_millis(1200)).read_timeout(Duration::from_secs(5)).send().and_then(|r| r.text()));
+            let el = t0.elapsed();
+            attohttpc::verif::set_resolution("late.test", None);
+            // give a connection that is still being set up the time to show up at the listener
+            std::thread::sleep(Duration::from_millis(600));
+            stop.store(true, Ordering::SeqCst);
+            let _ = drainer.join();
+            let connected = *accepted_at.lock().unwrap();
+            if std::env::var("VH_DEBUG").is_ok() {
+                eprintln!("DEBUG late-accept: result {res:?} after {el:?}; the listener accepted the attempt {connected:?} into the race");
+            }
+            let viol = match (&res, connected) {
+                (Ok(Ok(b)), _) if b == "L0" => None,
+                // the fourth attempt did connect (the listener accepted it) within its own
+                // time-out, yet the caller was told that nothing could be reached
+                (other, Some(t)) if t < Duration::from_millis(600 + 1200 - 80) => Some((
+                    "reachable-address-not-used".to_string(),
+                    format!("three addresses that never answer, then one whose attempt (started 0.6 s into the race, connect timeout 1.2 s) is accepted {t:?} into the race: {} after {el:?}", format!("{other:?}").chars().take(120).collect::<String>()),
+                )),
+                // the late accept did not happen in time on this run (kernel retransmission timing): nothing to judge
+                _ => None,
+            };
+            out.push((name, viol));
+        }
     }
     // two races in a row over the same two addresses
     for v6 in [false, true] {
@@ -950,7 +1053,7 @@ pub fn c17(ctx: &Ctx) -> Report {
     rep.set("exhaustive", true);
     rep.set(
         "rule",
-        format!("Part A: address lists with 0..{} addresses per family (at most {} in all) x resolver order {{v6 first, v4 first, interleaved}} x every accept/refuse assignment x deadline {{none, long, already expired}}; for each, EVERY arrival schedule: at each race window and in the final drain the explorer decides which pending attempt's result reaches the channel next or that the window expires (attempt threads are held at the library's schedule point just before they report); full DFS, no deviation bound; a schedule is a distinct sequence of such decisions. Part C (free running): 7..20 addresses that refuse at once followed by one that accepts, and two races in a row over [A, B] where A refuses during the first and accepts during the second. a deadline of 150..1000 ms with 1..6 refusing addresses ahead of the accepting one. Part B: 0..5 unresponsive addresses (listener with a full backlog of 0) ahead of an accepting one, real clock.", ctx.tier.pick(2, 3), ctx.tier.pick(3, 4)),
+        format!("Part A: address lists with 0..{} addresses per family (at most {} in all) x resolver order {{v6 first, v4 first, interleaved}} x every accept/refuse assignment x deadline {{none, long, already expired}}; for each, EVERY arrival schedule: at each race window and in the final drain the explorer decides which pending attempt's result reaches the channel next or that the window expires (attempt threads are held at the library's schedule point just before they report); full DFS, no deviation bound; a schedule is a distinct sequence of such decisions. Part C (free running): 7..20 addresses that refuse at once followed by one that accepts, and two races in a row over [A, B] where A refuses during the first and accepts during the second. a deadline of 150..1000 ms with 1..6 refusing addresses ahead of the accepting one; refusing addresses, then an unresponsive one, then the accepting one; three unresponsive addresses and a fourth that accepts late (after the earlier attempts timed out, before its own does). Part B: 0..5 unresponsive addresses (listener with a full backlog of 0) ahead of an accepting one, real clock.", ctx.tier.pick(2, 3), ctx.tier.pick(3, 4)),
     );
     rep.assume("an attempt that 'never answers' is an attempt whose result is held back until the race is over (or, in the drain, until the others have reported); the connect timeout itself is exercised in Part B with real unresponsive addresses");
     rep.assume("deadlines shorter than one race interval are not explored under gates (real time is not virtualised); 'already expired' and 'long' are");
